@@ -345,7 +345,8 @@ class BaseTemplate:
         class_name = "{}.{}".format(
             cls.__module__, cls.__qualname__).encode('utf-8')
         sha = get_pkg_digest()
-        sha.update(body.encode('utf-8', 'ignore'))
+        # Lone surrogates are part of the source, too
+        sha.update(body.encode('utf-8', 'surrogatepass'))
         sha.update(class_name)
         digest = sha.hexdigest()
 
